@@ -136,6 +136,13 @@ CLAIMS = {
          "and nine illegal scenarios: accepted iff legal, otherwise ValueError/KeyError with the binding tables unchanged. Sampled.",
          "Trusted: vf/gen_pattern.py, Python equality of the generated values, Hypothesis.",
          "DESIGN.md section 5, C20"),
+ 'C17': ("Hypothesis-generated pairs of HRGs (projections of a drawn joint grammar over shared rule skeletons, plus one-sided rules, skeleton variants, clash-baiting names) vs. own conjoinability predicate, expected conjoined-rule signatures and derivation-count dynamic programme",
+         "conjoin_hrgs(g1,g2) must produce exactly one rule per conjoinable ordered rule pair with the nodes and externals of the pair, one nonterminal edge "
+         "per shared edge id labelled by the pair of labels, and the terminal edges of both; the numbers of derivations up to depth 4 of the conjunction "
+         "and of same-shape conjoinable derivation pairs must coincide; paired names must be injective, unused in either grammar and typed like the first "
+         "component; a genuine terminal conflict must raise ValueError and nothing else may. Arguments unchanged. Sampled.",
+         "Trusted: the predicate/signature/DP code in vf/props/c17.py, Hypothesis; the pair->name map is read via fggs.conjunction.nonterminal_pairs and then checked.",
+         "DESIGN.md section 5, C17"),
 }
 
 NOT_YET = {}   # id -> reason (filled while the framework is being built)
